@@ -12,8 +12,18 @@ from vpm.oracles import daycount as dc
 
 
 def raw_epoch(jde):
-    """An Epoch holding exactly `jde` (no date round trip)."""
+    """An Epoch for the instant `jde` that does not depend on the calendar
+    round trip being right.  The public constructor is used whenever it
+    keeps the instant (to 1e-9 day: it re-derives the JDE from date fields,
+    which costs an ulp or two); only when it does not - the calendar code is
+    wrong at this instant - the JDE is stored directly, so that a reference
+    computation is still made at the instant meant.  (Always storing the
+    JDE directly would be wrong for a library that legitimately keeps
+    derived fields in the object.)"""
     from pymeeus.Epoch import Epoch
+    e = Epoch(float(jde))
+    if abs(e.jde() - jde) <= 1e-9:
+        return e
     e = Epoch(2451545.0)
     e._jde = float(jde)
     return e
